@@ -163,6 +163,10 @@ Definition all_size_ok (l : list N) : bool := forallb (fun s => (0 <? s) && (s <
 
 Definition vcode (r : res bool) : N := match r with Ok true => 2 | Ok false => 1 | Panic _ => 0 end.
 
+Definition clause_check (l : list N) (reported : bool) : bool :=
+  if Nat.leb (List.length l) 6 then verdict_ok l reported
+  else if reported then (total l + 255) / 256 <? slots_spec l else negb (both_sorts_better l).
+
 Definition check_slots (l : list N) (impl : N * N * N) : list N :=
   let '(is, ic, it) := impl in
   let dom := all_size_ok l in
@@ -171,12 +175,8 @@ Definition check_slots (l : list N) (impl : N * N * N) : list N :=
   (if dom && negb (slots_spec l + 1 =? is) then [2] else []) ++
   (if vcode m =? ic then [] else [3]) ++
   (if vcode m =? it then [] else [4]) ++
-  (if dom && (0 <? ic) then
-     let b := ic =? 2 in
-     let ok := if Nat.leb (List.length l) 6 then verdict_ok l b
-               else if b then (total l + 255) / 256 <? slots_spec l else negb (both_sorts_better l) in
-     if ok then [] else [5]
-   else []).
+  (if dom && (0 <? ic) && negb (clause_check l (ic =? 2)) then [5] else []) ++
+  (if dom && (0 <? it) && negb (clause_check l (it =? 2)) then [6] else []).
 
 (* ------------------------------------------------------------------ C09: version strings
    the pieces returned by get_solidity_major_minor_patch_version as byte lists, and for each
